@@ -105,7 +105,7 @@ func CheckC15(c *Ctx) {
 	})
 	c.Extra["fixed_points"] = len(fixed)
 	// sampled part: random bit patterns (every exponent) and random values in [-1,11]
-	c.Parallel("random", c.Pick(8_000_000, 150_000_000), 1<<14, func(w *Worker, i int) {
+	c.Parallel("random", c.Pick(8_000_000, 600_000_000), 1<<14, func(w *Worker, i int) {
 		u := w.R.U64()
 		if i&1 == 0 {
 			one(w, math.Float64frombits(u), "random-bit-pattern")
@@ -320,7 +320,7 @@ func CheckC18(c *Ctx) {
 		var src []string
 		gen.Cover(c.Rand("cover", v.Name), v, false, func(a spec.Assign) { src = append(src, v.Canonical(a)) })
 		r := c.Rand("valid", v.Name)
-		for len(src) < c.Pick(4000, 60_000) {
+		for len(src) < c.Pick(4000, 200_000) {
 			a := gen.MixedAssign(r, v)
 			if v.ID == spec.V30 || v.ID == spec.V31 {
 				// any order
